@@ -117,7 +117,7 @@ def probe_cases():
                         while len(progs[t]) < need:
                             progs[t].append(('U',))
                     w = worst(progs)
-                    sched = order + [0] * (w + 4)
+                    sched = order + [0] * max(6, w - len(order) + 4)
                     for keep in (False, True):
                         out.append({'keep': keep, 'budget': w + 2, 'progs': [list(p) for p in progs], 'sched': sched, 'probe': 'k%d%s kA%d jB%d' % (k, 'Q' if sep_req else '', kA, jB)})
     return out
@@ -170,16 +170,60 @@ def impl_property(c, p):
     return None
 
 
+def cycle_case(r):
+    """several full request -> emplace -> get cycles with contention: 2-3 consumers that also request, one producer with 2-3 distinct tags; the schedule is a
+    noisy version of the sequential order, written as a thread order (programs padded with updateRequested() so that decision = thread id)"""
+    k = r.choice([2, 2, 3])
+    m = r.choice([2, 2, 3])
+    P = k
+    cons = [[] for _ in range(k)]
+    prod = [('E', 10 * (P + 1) + i) for i in range(m)]
+    order = list(range(k + 1))
+    r.shuffle(order)
+    park_at = r.randrange(m - 1) if r.random() < 0.5 else -1     # cycle whose consumer is parked inside getUpdate during the whole next cycle
+    held = None
+    for i in range(m):
+        others = [c for c in range(k) if c != held] if held is not None else list(range(k))
+        a = r.choice(others)
+        b = a if r.random() < 0.5 else r.choice(others)
+        cons[a].append(('R',))
+        cons[b].append(('G',))
+        if i == park_at:
+            seq = [a] + [P] * 3 + [b] * r.randint(1, 3)
+            held_next = b
+        else:
+            seq = [a] + [P] * 3 + [b] * (r.randint(1, 4) if held is not None else 4)
+            held_next = None
+        for _ in range(r.choice([0, 1, 1, 2]) if held is None and held_next is None else 0):
+            d = r.randrange(k)
+            op = r.choice(['G', 'G', 'R'])
+            cons[d].append((op,))
+            pos = r.randrange(len(seq) + 1)
+            seq[pos:pos] = [d] * (r.randint(1, 4) if op == 'G' else 1)
+        order += seq
+        if held is not None:
+            order += [held] * 4 + [b] * 4
+        held = held_next
+    progs = cons + [prod]
+    for t in range(len(progs)):
+        while len(progs[t]) < order.count(t):
+            progs[t].append(('U',))
+    w = worst(progs)
+    return {'keep': r.random() < 0.5, 'budget': w + 2, 'progs': progs, 'sched': order + [r.randrange(0, 100) for _ in range(max(6, w - len(order) + 4))]}
+
+
 def gen_case(r):
     nt = r.choice([2, 2, 3, 3, 3, 4])
     shape = r.random()
     progs = []
     roles = []
-    if shape < 0.35:         # several consumers that also request + one producer emplacing several distinct tags (+ maybe a requester)
+    if shape < 0.25:         # several consumers that also request + one producer emplacing several distinct tags (+ maybe a requester)
         progs = mcme_progs(r)
         w = worst(progs)
         return {'keep': r.random() < 0.5, 'budget': w + 2, 'progs': progs, 'sched': gen_sched(r, w + 6)}
-    if shape < 0.65:         # documented primary usage and generalisations with ONE consumer
+    if shape < 0.45:         # the same population under near-sequential schedules: several complete cycles with contention
+        return cycle_case(r)
+    if shape < 0.7:          # documented primary usage and generalisations with ONE consumer
         roles = ['cons'] + [r.choice(['prod', 'prod', 'req', 'prodreq']) for _ in range(nt - 1)]
     elif shape < 0.9:        # several consumers
         k = r.choice([2, 2, 3]) if nt > 2 else 2
@@ -276,6 +320,9 @@ def search_ladder(ctx, exes, differing):
     fam = [mcme_progs(r) for _ in range(40)] + [c['progs'] for c in probe_cases()[::6]]
     cases = []
     while len(cases) < total:
+        if r.random() < 0.3:
+            cases.append(cycle_case(r))
+            continue
         progs = r.choice(base) if (base and r.random() < 0.3) else r.choice(fam)
         w = worst(progs)
         cases.append({'keep': r.random() < 0.5, 'budget': w + 2, 'progs': progs, 'sched': gen_sched(r, w + 6)})
@@ -338,8 +385,9 @@ def run(ctx):
     ctx.cov['evaluations'] += len(cases)
     ctx.cov['distinct_nontrivial'] += len(distinct)
     ctx.cov['rule'] = ('2 regression cases + %d deterministic probes (consumer parked after 1/2/3 steps of getUpdate while request, emplacement and 1-4 steps of another '
-                       "consumer's getUpdate happen; thread-order schedules) + random programs (2-5 threads, unique tags; 35%% several requesting consumers + one producer with "
-                       '2-4 emplacements, 30%% one consumer, 25%% several consumers, 10%% unconstrained) x random bursty schedules (decision lists <= 80 ints), half on the C++14 '
+                       "consumer's getUpdate happen; thread-order schedules) + random programs (2-5 threads, unique tags; 25%% several requesting consumers + one producer with "
+                       '2-4 emplacements, 20%% the same under noisy near-sequential thread-order schedules (several complete cycles), 25%% one consumer, 20%% several consumers, 10%% '
+                       'unconstrained) x random bursty schedules (decision lists <= ~90 ints), half on the C++14 '
                        'build (detail::OpResult), half on the C++17 build (std::optional), one fork per case under vsched; non-trivial = some tryEmplaceUpdate succeeded; '
                        'distinct = distinct (build, trace, results) strings; on a lockstep disagreement a search ladder of several thousand further runs looks for a concrete '
                        'failing input') % len(probes)
